@@ -1,9 +1,125 @@
-(** C06 -- statements only. *)
-From Coq Require Import NArith List.
-From FF Require Import Lib.Word Gen.Consts_mm_vmm Vmm.Pt Vmm.PtProofs.
+(** C06 -- copy-on-write faults get a private copy; the shared zero frame is never writable.
+    Statements only; every proof is [exact <lemma from Vmm/Pt*.v>].  Vocabulary as in Props/C04.v; in
+    addition [cow_pre s A page] = Some e iff the page's leaf entry e is present, not writable and marked
+    copy-on-write; [page_fault addr s] returns the new state and the outcome: 0 = the handler returned
+    (the faulting instruction is retried), PANIC + code = kernel panic with that error. *)
+From Coq Require Import NArith List Bool.
+From FF Require Import Lib.Word Gen.Consts_mm_vmm Vmm.Pt Vmm.PtArith Vmm.PtTree Vmm.PtMap Vmm.PtOps Vmm.PtTheorems
+     Vmm.PtPdt Vmm.PtFault Vmm.PtCow Vmm.PtZero Vmm.PtTemp.
 Import ListNotations.
 Local Open Scope N_scope.
 
-Theorem C06_levels : go_levels = [(39, 9); (30, 9); (21, 9); (12, 9)].
-Proof. exact go_levels_hw. Qed.
-Print Assumptions C06_levels.
+(** zero_frame_guard: once the guard is armed, every entry point of the mapping interface refuses a
+    writable mapping of the zero frame and changes nothing. *)
+Theorem C06_zero_frame_guard_map :
+  forall s page flags, prot s = true -> wants_rw flags = true -> map_page page (zf s) flags s = Ok (s, E_ZERO_RW).
+Proof. exact zero_frame_guard_map. Qed.
+Print Assumptions C06_zero_frame_guard_map.
+
+Theorem C06_zero_frame_guard_temp :
+  forall s, prot s = true -> map_temporary (zf s) s = Ok (s, E_ZERO_RW, 0).
+Proof. exact zero_frame_guard_temp. Qed.
+Print Assumptions C06_zero_frame_guard_temp.
+
+Theorem C06_zero_frame_guard_pdt_active :
+  forall s slot page flags, prot s = true -> wants_rw flags = true -> N.shiftr (cr3 s) 12 = pdts s slot ->
+    pdt_map slot page (zf s) flags s = Ok (s, E_ZERO_RW).
+Proof. exact zero_frame_guard_pdt_active. Qed.
+Print Assumptions C06_zero_frame_guard_pdt_active.
+
+Theorem C06_zero_frame_guard_pdt_inactive :
+  forall s A T ownA own slot page flags,
+    prot s = true -> wants_rw flags = true -> Inv2 s A T ownA own -> pdts s slot = T ->
+    exists s3, pdt_map slot page (zf s) flags s = Ok (s3, E_ZERO_RW) /\ Inv2 s3 A T ownA own /\
+               (forall q, hw_idx q 0 <> 511 -> aspace s3 A q = aspace s A q /\ aspace s3 T q = aspace s T q) /\
+               same_env s s3 /\ orc s3 = orc s.
+Proof. exact zero_frame_guard_pdt_inactive. Qed.
+Print Assumptions C06_zero_frame_guard_pdt_inactive.
+
+Theorem C06_zero_frame_guard_identity_region :
+  forall s size flags,
+    prot s = true -> wants_rw flags = true -> 0 < size -> size + 4095 < two64 -> zf s + (size + 4095) / 4096 < two64 ->
+    identity_map_region (zf s) size flags s = Ok (s, E_ZERO_RW, 0).
+Proof. exact zero_frame_guard_identity_region. Qed.
+Print Assumptions C06_zero_frame_guard_identity_region.
+
+(** fault_else_panics *)
+Theorem C06_fault_else_panics :
+  forall s A own addr,
+    Inv s A A own -> hw_idx (page_from_addr addr) 0 <> 511 ->
+    let page := page_from_addr addr in
+    (cow_pre s A page = None -> page_fault addr s = Ok (s, PANIC + E_FAULT)) /\
+    (forall e, cow_pre s A page = Some e ->
+       (forall s1, alloc s = (s1, None) -> page_fault addr s = Ok (s1, PANIC + E_ALLOC)) /\
+       (forall s1 cp s2 err pg, alloc s = (s1, Some cp) -> map_temporary cp s1 = Ok (s2, err, pg) -> err <> 0 ->
+                                page_fault addr s = Ok (s2, PANIC + err))).
+Proof. exact fault_else_panics. Qed.
+Print Assumptions C06_fault_else_panics.
+
+Theorem C06_fault_resume_only_cow :
+  forall s A own addr s',
+    Inv s A A own -> hw_idx (page_from_addr addr) 0 <> 511 -> page_fault addr s = Ok (s', 0) ->
+    exists e s1 cp s2 pg, cow_pre s A (page_from_addr addr) = Some e /\ alloc s = (s1, Some cp) /\
+                          map_temporary cp s1 = Ok (s2, 0, pg).
+Proof. exact fault_resume_only_cow. Qed.
+Print Assumptions C06_fault_resume_only_cow.
+
+Theorem C06_gpf_panics : forall s addr, step (OGpf addr) s = Ok (s, PANIC + E_FAULT, 0).
+Proof. exact gpf_panics. Qed.
+Print Assumptions C06_gpf_panics.
+
+(** cow_ok *)
+Theorem C06_cow_ok :
+  forall s A own addr e s1 cp s2 pg,
+    Inv s A A own ->
+    let page := page_from_addr addr in
+    hw_idx page 0 <> 511 -> ~ same_page page temp_page ->
+    cow_pre s A page = Some e ->
+    backed s (hw_frame e) = true -> own (hw_frame e) = None -> ~ In (hw_frame e) (orc s) ->
+    alloc s = (s1, Some cp) -> map_temporary cp s1 = Ok (s2, 0, pg) ->
+    exists s5 own',
+      page_fault addr s = Ok (s5, 0) /\ Inv s5 A A own' /\ same_env s s5 /\
+      aspace s5 A page = Some (cow_entry e cp) /\
+      (forall i, ent s5 cp i = ent s (hw_frame e) i) /\
+      (forall q, hw_idx q 0 <> 511 -> ~ same_page q page -> ~ same_page q temp_page -> translation s5 A q = translation s A q) /\
+      translation s5 A temp_page = None /\
+      (forall f i, own' f = None -> f <> cp -> ent s5 f i = ent s f i) /\ own' cp = None /\
+      flog s5 = frame_addr page :: vmm_tempMappingAddr :: vmm_tempMappingAddr :: flog s /\
+      (exists n, orc s5 = skipn n (orc s)) /\
+      (forall f, own' f = own f \/ (own f = None /\ In f (orc s) /\ f <> 0)).
+Proof. exact cow_ok. Qed.
+Print Assumptions C06_cow_ok.
+
+(** the entry the handler leaves: the copy frame, present, writable, not copy-on-write, every other
+    flag bit as before *)
+Theorem C06_cow_entry_bits :
+  forall e cp, cp < 2 ^ 40 ->
+    hw_frame (cow_entry e cp) = cp /\ hw_P (cow_entry e cp) = true /\
+    has_flags (cow_entry e cp) vmm_FlagRW = true /\ has_flags (cow_entry e cp) vmm_FlagCopyOnWrite = false /\
+    (forall n, n <> 0 -> n <> 1 -> n <> 9 -> (n < 12 \/ 52 <= n) -> N.testbit (cow_entry e cp) n = N.testbit e n).
+Proof. exact cow_entry_bits. Qed.
+Print Assumptions C06_cow_entry_bits.
+
+(** zero_frame_inv: over any history of Map / Unmap / MapTemporary requests (any page outside the
+    recursive window, any frame below 2^40, any flag bits) and of faults on pages sharing the zero frame,
+    in every state the history passes through no page maps the zero frame writable and the zero frame is
+    all zero.  A fault that panics ends the history. *)
+Theorem C06_zero_frame_inv :
+  forall A ops s own,
+    ZInv s A own -> zdom A ops s -> Forall (fun s' => exists own', ZInv s' A own') (ztrace ops s).
+Proof. exact zero_frame_inv. Qed.
+Print Assumptions C06_zero_frame_inv.
+
+(** "once the virtual memory manager is initialised": reserveZeroedFrame, run on a state where the guard
+    is not yet armed and with an allocator that hands out a frame nobody maps, establishes the invariant. *)
+Theorem C06_reserve_zeroed_establishes :
+  forall s A own F r,
+    Inv s A A own -> prot s = false -> orc s = F :: r -> F <> 0 ->
+    (forall q fl, hw_idx q 0 <> 511 -> translation s A q <> Some (F, fl)) ->
+    exists s' err own1,
+      reserve_zeroed s = Ok (s', err) /\ (err = 0 \/ err = E_ALLOC) /\ zf s' = F /\
+      (err = 0 -> ZInv s' A own1 /\
+                  (forall q, hw_idx q 0 <> 511 -> ~ same_page q temp_page -> translation s' A q = translation s A q) /\
+                  translation s' A temp_page = None).
+Proof. exact reserve_zeroed_spec. Qed.
+Print Assumptions C06_reserve_zeroed_establishes.
